@@ -1490,9 +1490,13 @@ func (x *SPE) call(st *pathState, in ssa.Instruction, c *ssa.CallCommon, kind st
 				if f.Name() == "len" && len(args) == 1 {
 					if l := constLen(args[0]); l >= 0 {
 						e = mkConstInt(l, t)
-					} else if sl := args[0]; sl.Op == OpSlice && len(sl.Args) == 4 && sl.Args[1] != nil && sl.Args[2] != nil && sl.Args[3] == nil && isArrayPtr(sl.Args[0]) {
+					} else if sl := args[0]; sl.Op == OpSlice && len(sl.Args) == 4 && sl.Args[2] != nil && sl.Args[3] == nil && isArrayPtr(sl.Args[0]) {
 						// len(array[a:b]) = b - a
-						e = foldBin(token.SUB, sl.Args[2], sl.Args[1], t, in.Pos())
+						if sl.Args[1] == nil {
+							e = sl.Args[2]
+						} else {
+							e = foldBin(token.SUB, sl.Args[2], sl.Args[1], t, in.Pos())
+						}
 					} else if sl := args[0]; sl.Op == OpSlice && len(sl.Args) == 4 && sl.Args[1] != nil && sl.Args[2] == nil && sl.Args[3] == nil {
 						// len(x[c:]) = len(x) - c
 						if _, isC := sl.Args[1].intConst(); isC {
